@@ -150,22 +150,22 @@ CLAIMS['C08'] = dict(category='proof', ref='5 Core E, 8 C08', text=_BROKER_TEXT 
     "C08_refines_reference: after any admitted history the retained trie is the reference broker's store and the deliveries after a SUBACK are exactly (as a multiset, DUP/id free) the messages it demands, RETAIN=1.") + _REFINE + _PARTIAL_SCHED +
     " Byte identity of payloads across ring reuse and retained updates concurrent to subscriptions are memory/race facts outside the pure model (correspondence / C18).")
 CLAIMS['C09'] = dict(category='proof', ref='5 Core E, 8 C09', text=_BROKER_TEXT % (
-    "Theorems (20): DISCONNECT emits only the close, nothing is published, later events for the connection are silent (C09_disconnect_no_will, "
+    "Theorems (22): DISCONNECT emits only the close, nothing is published, later events for the connection are silent (C09_disconnect_no_will, "
     "C09_disconnect_after_history); an abnormal end emits the close followed by exactly the fan-out of the will, once (C09_will_published_once, "
     "C09_no_will_no_publish, C09_stopBase); after an accepted CONNECT, fresh or resumed, the session's will is THIS CONNECT's (topic, payload, QoS, "
     "retain) (C09_will_is_current_connect, C09_initWill_fields, C09_current_will_published, C09_will_of_own_connect over quiet histories); no other event "
     "reads a will (C09_only_stop_reads_will, C09_stop_reads_will_only_with_flag, C09_will_kept_step); invariant (C09_inv). "
     "C09_refines_reference: after any admitted history DISCONNECT publishes nothing and any other end publishes exactly the will of the connection's own CONNECT (the reference broker's record), accepted by its fan-out.") + _REFINE + _PARTIAL_SCHED +
-    " Keep-alive expiry as a cause is an event of the model; its timing is C19. A CONNECT with the client identifier of a live connection ends that connection (take-over, MQTT-3.1.4-2) and publishes ITS will before the handshake: C09_only_stop_reads_will excludes exactly these first packets (`mayStop`), `quiet` histories treat such a CONNECT as an end of the connection (C09_affectsWill_iff), and for all admitted histories C09_take_over_is_an_end says that such a CONNECT emits exactly the outputs of the end of that connection (`.close`) followed by its CONNACK, in the model and in the reference broker, so C09_refines_reference applies to the connection taken over (C10_refines_reference: the sessions side).")
+    " Keep-alive expiry as a cause is an event of the model; its timing is C19. A CONNECT with the client identifier of a live connection ends that connection (take-over, MQTT-3.1.4-2) and publishes ITS will before the handshake: C09_only_stop_reads_will excludes exactly these first packets (`mayStop`), `quiet` histories treat such a CONNECT as an end of the connection (C09_affectsWill_iff), and for all admitted histories C09_take_over_is_an_end says that such a CONNECT emits exactly the outputs of the end of that connection (`.close`) followed by its CONNACK, in the model and in the reference broker, so C09_refines_reference applies to the connection taken over (C10_refines_reference: the sessions side). Source ties for the take-over (Properties/C09Source.lean, regenerated facts of extract/facts_takeover.go): stop() reads the stored CONNECT's will flag, the will and the CleanSession flag only after wgStopped.Wait(), so a DISCONNECT received before a stop() called from outside (take-over, Server.Close) still suppresses the will (C09_stop_reads_will_after_wait, with the life-cycle model's run of that case), and connectMu is held by defer from before the take-over to the registration in svcs (C09_connectMu_held_to_registration); the held take-over scenario `life takeover disc` runs that case on the real broker.")
 CLAIMS['C10'] = dict(category='proof', ref='5 Core E, 8 C10', text=_BROKER_TEXT % (
-    "Theorems (17): SessionPresent=1 iff CleanSession=0, non-empty id and the store holds a session kept from a CleanSession=0 connection "
+    "Theorems (19): SessionPresent=1 iff CleanSession=0, non-empty id and the store holds a session kept from a CleanSession=0 connection "
     "(C10_session_present); a clean CONNECT starts from a fresh empty session, tries unchanged (C10_clean_starts_empty); after a clean session ends the "
     "store no longer maps its id (C10_clean_discarded), a persistent one stays with its topics and open QoS 2 exchanges (C10_persistent_kept); on resume the "
     "topic store is the re-subscription of the kept list and every kept entry answers the subscriber lookup for matching names (C10_resume_resubscribes, "
     "C10_resume_trie via C06 smatch_char); a CONNECT under id X changes neither store entry nor session of Y != X (C10_keyed_by_id); trie well-formed in "
     "every reachable state (C10_trie_wf_reachable); regenerated constants = specification's (C10_facts). "
     "C10_refines_reference: after any admitted history an accepted CONNECT first takes over the live connection of its client identifier, if any (there is at most one; model `stop` = reference `endConn`, not graceful), then is answered CONNACK 0 with SessionPresent = (CleanSession=0 and the reference broker stores a session for the id after the take-over: iff the connection taken over had CleanSession=0, or an older session was stored), and the trie then holds the reference broker's held list - nothing of the connection taken over, the resumed subscriptions for the new one.") + _REFINE + _PARTIAL_SCHED +
-    " Two live connections under one client identifier no longer exist: take-over (finding G5, repaired; the regression witness - the older connection ending later must not take the newer one's subscription with it - is replayed on every run).")
+    " Two live connections under one client identifier no longer exist: take-over (finding G5, repaired; the regression witness - the older connection ending later must not take the newer one's subscription with it - is replayed on every run). Source ties for the take-over (Properties/C10Source.lean, regenerated facts of extract/facts_takeover.go): disconnectClient drops the entries whose `stopped` channel is closed (not those whose `closed` flag is set), collects the client's connections, unlocks, and for each calls stop() and waits for `stopped` - for every population of live / ending / finished connections it returns with every connection of the client FINISHED, which is the state the model's `first` runs in; handleConnection takes connectMu before it and holds it to its return (C10_takeover_shape_is_source); Session.Resumable is initted && Cmsg != nil && !CleanSession and getSession resumes only behind it, the model's `filter (!s.clean)` (C10_resumable_is_source). The held take-over scenario `life takeover resume` (a CONNECT while the old connection's teardown is pending behind a client that does not read: no CONNACK before the teardown has finished, and the new connection's session survives the old one's late end) is part of every run.")
 CLAIMS['C11'] = dict(category='proof', ref='5 Core E, 8 C11', text=_BROKER_TEXT % (
     "Theorems (15): CONNACK 0 is emitted exactly when the reference refusal list is empty; otherwise the state is unchanged and the answer is a silent close "
     "with 'malformed' among the reasons or a code k!=0 with k among them (C11_table, C11_accept_iff, C11_checks_are_spec); precedence of the code's checks "
@@ -204,7 +204,7 @@ CLAIMS['C17'] = dict(category='proof', ref='5 Core F, 8 C17',
          "(Len()-vs-Encode() mismatch A2 belongs there); that no write bypasses wmu is C18.")
 
 CLAIMS['C16'] = dict(category='proof', ref='5 Core F, 8 C16',
-    text="Lean 4 theorems (26), for ALL initial buffer states, traffic, schedules of thread steps and interleaved environment events (peer closes / stops "
+    text="Lean 4 theorems (27), for ALL initial buffer states, traffic, schedules of thread steps and interleaved environment events (peer closes / stops "
          "reading / keep-alive fires / the connection a delivery is addressed to blocks / Server.Close), over a small-step model of one connection's "
          "life-cycle at ring-call granularity (receiver, processor, sender, any number of stop() callers and of external writers; Model/Lifecycle.lean): "
          "invariants in every reachable state (C16_invariant); at most one stop() call past the CAS, effects unsubscribe / will-if-flag / delete-if-clean "
@@ -236,7 +236,7 @@ CLAIMS['C16'] = dict(category='proof', ref='5 Core F, 8 C16',
          "b77088f leaves a self-held connection standing after a keep-alive expiry (F7). The order of stop(), its "
          "guards, the deferred recovers, Done-then-stop, the processor loop, writeMessage's lock structure, Server.Close, the receiver's conn.Close-then-return "
          "after a failed ReadFrom and the ring's lock structure are "
-         "regenerated from the source and tied by decide (C16_source_shape). Tied to the real broker by fault sequences (8 buffer conditions x 6 causes x "
+         "regenerated from the source and tied by decide (C16_source_shape). Since the take-over repair a handshake may wait for a teardown that a third party holds (Server.disconnectClient); Server.Close, which ends that wait, needs Server.mu first: the regenerated statement order of disconnectClient has its explicit unlock before stop() and the wait, so Close gets the mutex at every point at which disconnectClient may be waiting (C16_disconnectClient_waits_without_mu, Properties/C16Source.lean; scenario `life takeover srvclose`: Server.Close returns while a take-over waits). Tied to the real broker by fault sequences (8 buffer conditions x 6 causes x "
          "order of ends, raw clients that stop reading; model stream = outcome of the model under fair round-robin, line equality). PARTIAL: bounded "
          "time = bounded number of own steps under weak fairness of the Go scheduler (trusted); socket semantics are parameters; the rings are abstracted "
          "to call level (RingA = bytes buffered + done, one atomic step per ring call, a waiting call = a step that is not enabled) - that contract is now DERIVED "
